@@ -426,6 +426,13 @@ def pw_from_ast(node, env, var):
                 r = pw_mul(r, a)
             return r
         raise AnalysisError("operator in a limiter")
+    if t is ast.IfExp:
+        c = pw_from_ast(node.test, env, var)
+        if c.breaks == [] and pdeg(c.pieces[0].n) <= 0 and pdeg(c.pieces[0].d) == 0:
+            # a condition that does not depend on the variable (a parameter / default): python truthiness selects the branch
+            return pw_from_ast(node.body if c.pieces[0].eval(F0) != 0 else node.orelse, env, var)
+        a_, b_ = pw_from_ast(node.body, env, var), pw_from_ast(node.orelse, env, var)
+        return pw_add(pw_mul(c, a_), pw_mul(pw_sub(PW.const(1), c), b_))
     if t is ast.Compare and len(node.ops) == 1:
         a = pw_from_ast(node.left, env, var)
         b = pw_from_ast(node.comparators[0], env, var)
